@@ -1,5 +1,5 @@
 (* Executable acceptor for the fork handshake model: a step is accepted only when it changes something the model allows at that point
-   (a helper pauses only from the top of its loop, with PAUSE raised; the fork happens only when every helper is PAUSED; an invocation
+   (a helper unregisters only from the top of its loop, with PAUSE raised, and raises PAUSED only after it has unregistered; the fork happens only when every helper is PAUSED; an invocation
    takes the head of the private batch).  The projection of an implementation trace (tools/props/C16.py) is fed to it; an accepted run is
    a run of Fork.exec, so Fork.fork_all_runs applies to it. *)
 From Coq Require Import List Arith Bool Lia.
@@ -15,7 +15,9 @@ Definition enabled (c : choice) (s : st) : bool :=
   | HSplice h => (h <? nh) && match hph (hp s h), hq (hp s h) with H_Idle, _ :: _ => true | _, _ => false end
   | HSync h => (h <? nh) && match hph (hp s h) with H_Spliced => true | _ => false end
   | HInvoke h => (h <? nh) && match hph (hp s h), hbatch (hp s h) with H_Invoking, _ :: _ => true | _, _ => false end
-  | HPause h => (h <? nh) && match hph (hp s h) with H_Idle => pause (hp s h) | _ => false end
+  | HPause h => (h <? nh) && match hph (hp s h) with H_Unreg => true | _ => false end
+  | HUnreg h => (h <? nh) && match hph (hp s h) with H_Idle => pause (hp s h) | _ => false end
+  | HReg h => (h <? nh) && match hph (hp s h) with H_Resumed => true | _ => false end
   | HResume h => (h <? nh) && match hph (hp s h) with H_Paused => negb (pause (hp s h)) | _ => false end
   | FBegin => match fp s with F_Idle => true | _ => false end
   | FFork => match fp s with F_Wait => all_paused nh s | _ => false end
